@@ -229,24 +229,7 @@ class FuncContent:
                     self.lexer.parse_if_else(self.tokenizer, self.prefix),
                 )
 
-        if self.__commands:
-            if self.expanded_commands is not None:
-                for expanded_command in self.expanded_commands:
-                    self.command_strings.append(
-                        " ".join(self.__commands)
-                        + " "
-                        + (
-                            expanded_command
-                            if "\n" not in expanded_command
-                            else self.lexer.datapack.add_private_function(
-                                "expand", expanded_command
-                            )
-                        )
-                    )
-            else:
-                self.command_strings.append(" ".join(self.__commands))
-            self.__commands = []
-            self.expanded_commands = None
+        self.__flush_commands()
 
         self.__parse_commands(current_line)
 
@@ -275,6 +258,11 @@ class FuncContent:
                 self.__commands, self.lexer.parse_if_else(self.tokenizer, self.prefix)
             )
 
+        self.__flush_commands()
+        return self.command_strings
+
+    def __flush_commands(self) -> None:
+        """Move the pending command in self.__commands (if any) to self.command_strings"""
         if self.__commands:
             if self.expanded_commands is not None:
                 for expanded_command in self.expanded_commands:
@@ -307,7 +295,6 @@ class FuncContent:
                 self.command_strings.append(" ".join(self.__commands))
             self.__commands = []
             self.expanded_commands = None
-        return self.command_strings
 
     def __parse_commands(self, current_line: int) -> None:
         """Parse command in self.commands"""
